@@ -96,7 +96,8 @@ theorem ninv_step {bound : Nat} {m0 : Nat → NMap} {st : St} (rt : Nat) (op : O
           simp [push, setMap, this, ro id hid]
         · intro r s hs
           have hs' : (r = rt ∧ s = ⟨st.next, true, true⟩) ∨ s ∈ st.pool r := by
-            have := mem_push_pool (st := setMap st st.next (st.maps pm)) hs
+            have := mem_push_pool (st := setMap st st.next (st.maps pm)) (rest := st.stacks rt)
+              (show s ∈ (push (setMap st st.next (st.maps pm)) rt ⟨st.next, true, true⟩ (st.stacks rt)).pool r from hs)
             simpa [setMap] using this
           rcases hs' with ⟨_, rfl⟩ | hs'
           · simp [push, setMap]; omega
